@@ -384,9 +384,11 @@ func updateConfigFile() {
 		}
 		b = append(b, ")\n"...)
 	}
+	verifFS("config.update.before-writefile")
 	if err := os.WriteFile(configFilename, b, 0666); err != nil {
 		panic(err)
 	}
+	verifFS("config.update.after-writefile")
 }
 
 func defReplFunction() {
